@@ -17,6 +17,7 @@
 (*   req    : sequence of requested names ("afile" = a file named unlike the   *)
 (*            module AA-MIB it holds)                                          *)
 (*   srcA/B : "ok" | "broken" | "missing"   file <module>.txt in the source dir *)
+(*            ("cut": the file ends inside a MACRO body - a lexer error)         *)
 (*            srcB may also be "packed": there is no BB-MIB.txt, the module    *)
 (*            BB-MIB follows AA-MIB inside AA-MIB.txt (two modules in one file) *)
 (*   src2A  : "ok" | "broken" | "missing"   AA-MIB.txt in the SECOND source dir  *)
@@ -78,6 +79,7 @@ FileAns(st, m, wd) ==
                     Ok(<<Mod("AA-MIB", ImpOf(wd, "AA-MIB"), "ok"), Mod("BB-MIB", ImpOf(wd, "BB-MIB"), "ok")>>)
     [] st = "ok" -> Ok(<<Mod(m, ImpOf(wd, m), "ok")>>)
     [] st = "broken" -> A("parseerr")
+    [] st = "cut" -> A("lexerr")              \* the file ends inside a MACRO body: the lexer's error; the next file must parse normally
     [] OTHER -> A("nf")
 
 \* the second source directory only ever holds a copy of AA-MIB
